@@ -12,9 +12,9 @@ import (
 	"github.com/ipld/go-ipld-prime/codec/dagcbor"
 	"github.com/ipld/go-ipld-prime/datamodel"
 	"github.com/ipld/go-ipld-prime/fluent/qp"
-	"github.com/ipld/go-ipld-prime/schema"
 	cidlink "github.com/ipld/go-ipld-prime/linking/cid"
 	"github.com/ipld/go-ipld-prime/node/basicnode"
+	"github.com/ipld/go-ipld-prime/schema"
 	"github.com/storacha/go-ucanto/core/dag/blockstore"
 	"github.com/storacha/go-ucanto/core/delegation"
 	"github.com/storacha/go-ucanto/core/invocation"
@@ -110,6 +110,20 @@ type c10Typed struct {
 
 var c10TypeSys = func() *schema.TypeSystem {
 	ts, err := ipldprime.LoadSchemaBytes([]byte("type OkRes struct {\n  n Int\n  s String\n}\ntype ErrRes struct {\n  n Int\n  s String\n}\n"))
+	if err != nil {
+		panic(err)
+	}
+	return ts
+}()
+
+// a second result schema whose types have the SAME NAMES but another definition (two capabilities of one service
+// commonly both call their results Ok / Err): each reader must decode with the schema it was given
+type c10Typed2 struct {
+	Label string
+}
+
+var c10TypeSys2 = func() *schema.TypeSystem {
+	ts, err := ipldprime.LoadSchemaBytes([]byte("type OkRes struct {\n  label String\n}\ntype ErrRes struct {\n  label String\n}\n"))
 	if err != nil {
 		panic(err)
 	}
@@ -233,6 +247,12 @@ func init() {
 				val = basicnode.NewString("value")
 			}
 			typed := i%4 == 0
+			typed2 := i%4 == 2
+			if typed2 {
+				val, _ = qp.BuildMap(basicnode.Prototype.Any, 1, func(ma datamodel.MapAssembler) {
+					qp.MapEntry(ma, "label", qp.String(fmt.Sprintf("x%d", i)))
+				})
+			}
 			if typed {
 				// a result with a fixed shape, read back into Go structs with Rebind
 				val, _ = qp.BuildMap(basicnode.Prototype.Any, 2, func(ma datamodel.MapAssembler) {
@@ -480,19 +500,42 @@ func init() {
 						outAny("ReceiptReader.Read", rd2)
 					}
 				}
-				if typed {
-					rb, err := receipt.Rebind[c10Typed, c10Typed](rd, c10TypeSys.TypeByName("OkRes"), c10TypeSys.TypeByName("ErrRes"))
-					if err != nil {
-						direct = append(direct, map[string]any{"receipt": i, "shape": shape, "what": "Rebind failed after transport: " + err.Error()})
-					} else {
-						nrebind++
-						common("Rebind", rb)
-						gotOk, gotVal := false, c10Typed{}
-						result.MatchResultR0(rb.Out(), func(v c10Typed) { gotOk, gotVal = true, v }, func(v c10Typed) { gotOk, gotVal = false, v })
-						if gotOk != isOk || gotVal.N != int64(i) || gotVal.S != "typed" {
-							direct = append(direct, map[string]any{"receipt": i, "shape": shape, "reader": "Rebind", "what": "Rebind: read-back differs from what was issued: out"})
+				if p := recovered(func() {
+					if typed2 {
+						rb, err := receipt.Rebind[c10Typed2, c10Typed2](rd, c10TypeSys2.TypeByName("OkRes"), c10TypeSys2.TypeByName("ErrRes"))
+						if err != nil {
+							direct = append(direct, map[string]any{"receipt": i, "shape": shape, "what": "Rebind (second schema with the same type names) failed after transport: " + err.Error()})
+						} else {
+							nrebind++
+							common("Rebind", rb)
+							gotOk, gotVal := false, c10Typed2{}
+							result.MatchResultR0(rb.Out(), func(v c10Typed2) { gotOk, gotVal = true, v }, func(v c10Typed2) { gotOk, gotVal = false, v })
+							if gotOk != isOk || gotVal.Label != fmt.Sprintf("x%d", i) {
+								direct = append(direct, map[string]any{"receipt": i, "shape": shape, "reader": "Rebind", "what": "Rebind (second schema): read-back differs from what was issued: out"})
+							}
+						}
+						if rr, err := receipt.NewReceiptReaderFromTypes[c10Typed2, c10Typed2](c10TypeSys2.TypeByName("OkRes"), c10TypeSys2.TypeByName("ErrRes")); err == nil {
+							if _, err := rr.Read(rl, dmsg.Blocks()); err != nil {
+								direct = append(direct, map[string]any{"receipt": i, "shape": shape, "what": "typed ReceiptReader (second schema) failed after transport: " + err.Error()})
+							}
 						}
 					}
+					if typed {
+						rb, err := receipt.Rebind[c10Typed, c10Typed](rd, c10TypeSys.TypeByName("OkRes"), c10TypeSys.TypeByName("ErrRes"))
+						if err != nil {
+							direct = append(direct, map[string]any{"receipt": i, "shape": shape, "what": "Rebind failed after transport: " + err.Error()})
+						} else {
+							nrebind++
+							common("Rebind", rb)
+							gotOk, gotVal := false, c10Typed{}
+							result.MatchResultR0(rb.Out(), func(v c10Typed) { gotOk, gotVal = true, v }, func(v c10Typed) { gotOk, gotVal = false, v })
+							if gotOk != isOk || gotVal.N != int64(i) || gotVal.S != "typed" {
+								direct = append(direct, map[string]any{"receipt": i, "shape": shape, "reader": "Rebind", "what": "Rebind: read-back differs from what was issued: out"})
+							}
+						}
+					}
+				}); p != nil {
+					direct = append(direct, map[string]any{"receipt": i, "shape": shape, "reader": "Rebind", "what": fmt.Sprintf("typed reader / Rebind panicked: %v", p)})
 				}
 			}
 			rt, err := rcptCoqFromBytes(rootBlk.Bytes())
